@@ -10,8 +10,9 @@ Init == /\ par \in [method : Unsafe \cup {"GET", "HEAD", "OPTIONS"}, status : {2
         /\ pred = [a |-> "?", b |-> "?"]
 Invalidates == par.method \in Unsafe /\ par.status < 400
 SameOrigin == par.loc \in {"rel", "abspath", "absurl"}
-\* the request itself already evicts the entry for every invalidating method (client side), whatever the status
-Predict == [a |-> IF Invalidates \/ par.method \in {"PATCH", "FOO"} THEN "contact" ELSE "hit",   \* methods Squid does not know evict on the request itself b |-> IF Invalidates /\ SameOrigin THEN "contact" ELSE "hit"]
+\* methods Squid does not know (PATCH, extension methods) evict the entry on the request itself, whatever the status
+Predict == [a |-> IF Invalidates \/ par.method \in {"PATCH", "FOO"} THEN "contact" ELSE "hit",
+            b |-> IF Invalidates /\ SameOrigin THEN "contact" ELSE "hit"]
 Next == pred.a = "?" /\ pred' = Predict /\ UNCHANGED par
 Spec == Init /\ [][Next]_vars
 ImplRefinesP == pred.a # "?" => ((Invalidates => pred.a = "contact") /\ (Invalidates /\ SameOrigin => pred.b = "contact"))
